@@ -195,7 +195,16 @@ def main_transitions(rep, f, c, sink):
                 effects.append('store?' + expr_str(pl, b)[:60])
         offv = p.env.get(off)
         if offv is not None and N(offv) != 'o':
-            effects.append('offset:=' + N(offv))
+            # the offset in linear form: o + k however it was computed (`offset += consumed` with consumed = 0 is no change)
+            try:
+                terms_, k_ = add_terms(offv)
+            except Exception:
+                terms_, k_ = None, None
+            if terms_ == (('init', off),) and isinstance(k_, int):
+                if k_ != 0:
+                    effects.append('offset:=o+%d' % k_)
+            else:
+                effects.append('offset:=' + N(offv))
         calls = [e for e in p.calls() if (e[1] or '').startswith('Decoder::')]
         if p.end[0] == 'back':
             end = 'continue'
@@ -625,28 +634,98 @@ def one_shot(rep, f, c):
         rep.undecidable('C10-D2', fn, 'not found', None, c)
     else:
         site = sp_str(b.raw['span'])
-        got = {}
-        none_ok = False
+        # for_bom as a function of the buffer's length class and first three bytes: every guard on a path is evaluated on each
+        # representative buffer (lengths 0..4, bytes drawn from the BOM bytes and one other value); exactly one path may accept
+        # it, and its answer must be the reference's.  Guards may be starts_with(prefix), length comparisons, byte comparisons or
+        # switches on buffer[i] (slice patterns), in any combination.
+        BUF = ('loc', 1)
+        paths = [p for p in region_paths(b, 0) if feasible(p) and p.end[0] == 'return']
         extra = []
-        for p in [p for p in region_paths(b, 0) if feasible(p) and p.end[0] == 'return']:
-            sw = [(const_bytes(f, e[1][2][1]), e[2]) for e in p.conds() if e[1][0] == 'call' and (e[1][1] or '').endswith('::starts_with') and strip_ref(e[1][2][0]) == ('loc', 1)]
-            # the answer may depend on nothing but the three prefix tests (an additional length guard changes it for the two-byte BOMs)
-            other = [e for e in p.conds() if not (e[1][0] == 'call' and (e[1][1] or '').endswith('::starts_with')) and e[1][0] != 'c']
-            if other:
-                extra.append(expr_str(other[0][1], b)[:80])
-            rv = p.env.get(0)
-            pos = [bts for bts, t in sw if t]
-            if rv is not None and variant_name(rv) == 'Some' and len(pos) == 1:
-                tup = rv[2][0]
-                got[pos[0]] = (static_of(tup[2][0]), tup[2][1][1] if tup[2][1][0] == 'c' else None)
-            elif rv is not None and variant_name(rv) == 'None' and not pos and len(sw) == 3:
-                none_ok = True
-        want = {v: (k, len(v)) for k, v in BOMS.items()}
+
+        def is_buf(e):
+            e = strip_ref(e)
+            while e[0] in ('deref', 'ref'):
+                e = strip_ref(e[1])
+            return e == BUF
+
+        def guard(e, buf):
+            """truth value / switch value of one path condition on the concrete representative `buf`; None = not understood"""
+            ce, lab = e[1], e[2]
+            if ce[0] == 'c':
+                return True
+            val = None
+            if ce[0] == 'call' and (ce[1] or '').endswith('::starts_with') and is_buf(ce[2][0]):
+                pre = const_bytes(f, ce[2][1])
+                if pre is None:
+                    return None
+                val = buf[:len(pre)] == pre
+            elif ce[0] == 'is_empty' and is_buf(ce[1]):
+                val = len(buf) == 0
+            elif ce[0] == 'bin' and ce[1] in ('Lt', 'Le', 'Gt', 'Ge', 'Eq', 'Ne'):
+                def num(x):
+                    x = cast_inner(x)
+                    if x[0] == 'c' and isinstance(x[1], int):
+                        return x[1]
+                    if x[0] == 'len' and is_buf(x[1]):
+                        return len(buf)
+                    if x[0] == 'idx' and is_buf(x[1]) and x[2][0] == 'c':
+                        return buf[x[2][1]] if x[2][1] < len(buf) else 'oob'
+                    return None
+                a_, b_ = num(ce[2]), num(ce[3])
+                if a_ is None or b_ is None:
+                    return None
+                if 'oob' in (a_, b_):
+                    return 'oob'
+                val = {'Lt': a_ < b_, 'Le': a_ <= b_, 'Gt': a_ > b_, 'Ge': a_ >= b_, 'Eq': a_ == b_, 'Ne': a_ != b_}[ce[1]]
+            elif ce[0] == 'idx' and is_buf(ce[1]) and ce[2][0] == 'c':
+                if ce[2][1] >= len(buf):
+                    return 'oob'
+                v = buf[ce[2][1]]
+                vals = [x for x, _ in b.blocks[e[3]]['t']['targets']]
+                labs = lab if isinstance(lab, tuple) else (lab,)
+                return any((l_ == 'else' and v not in vals) or l_ == v for l_ in labs)
+            else:
+                return None
+            return val == lab if isinstance(lab, bool) else None
+
+        reps = [b'']
+        alphabet = [0xEF, 0xBB, 0xBF, 0xFF, 0xFE, 0x41]
+        import itertools as _it
+        for n_ in (1, 2, 3, 4):
+            for combo in _it.product(alphabet, repeat=min(n_, 3)):
+                reps.append(bytes(combo) + b'\x41' * (n_ - min(n_, 3)))
+        bad = []
+        nrows = 0
+        for buf in reps:
+            want_ = None
+            for enc_, bom in BOMS.items():
+                if buf[:len(bom)] == bom:
+                    want_ = (enc_, len(bom))
+            answers = []
+            for p in paths:
+                ts = [guard(e, buf) for e in p.conds()]
+                if any(t is None for t in ts):
+                    extra.append([expr_str(e[1], b)[:80] for e, t in zip(p.conds(), ts) if t is None][0])
+                    continue
+                if 'oob' in ts or not all(ts):
+                    continue
+                rv = p.env.get(0)
+                if rv is not None and variant_name(rv) == 'Some':
+                    tup = rv[2][0]
+                    answers.append((static_of(tup[2][0]), tup[2][1][1] if tup[2][1][0] == 'c' else None))
+                elif rv is not None and variant_name(rv) == 'None':
+                    answers.append(None)
+                else:
+                    answers.append('?')
+            nrows += 1
+            if answers != [want_]:
+                bad.append((buf.hex(), want_, answers))
         rep.ob('C10-D2.for_bom.only-prefix-tests', fn, not extra,
-               'for_bom\'s answer depends on a condition other than the three prefix tests: %s' % extra[:2], site, None, c)
-        rep.ob('C10-D2.for_bom', fn, got == want and none_ok,
-               'for_bom does not recognise exactly EF BB BF -> (UTF_8,3), FF FE -> (UTF_16LE,2), FE FF -> (UTF_16BE,2): %r' % {k.hex(): v for k, v in got.items()},
-               site, {'prefixes': {k.hex(): list(v) for k, v in got.items()}}, c)
+               'for_bom\'s answer depends on a condition that is not a test of the buffer\'s length or first bytes: %s' % sorted(set(extra))[:2], site, None, c)
+        rep.ob('C10-D2.for_bom', fn, not bad and nrows >= 200 and bool(paths),
+               'for_bom does not recognise exactly EF BB BF -> (UTF_8,3), FF FE -> (UTF_16LE,2), FE FF -> (UTF_16BE,2) for buffers of every length: '
+               'for the buffer %s the reference answer is %s, the paths give %s' % (bad[0] if bad else ('', '', '')),
+               site, {'representative_buffers': nrows, 'paths': len(paths)}, c)
     if c == 'noalloc':
         return
     fn = 'Encoding::decode_with_bom_removal'
